@@ -542,6 +542,12 @@ func run(cd *caseDef, faults []fault, recoverAfter bool) (res result) {
 			rerr = b.Reopen()
 		}
 	case "encrypt":
+		// roll-up goroutines of the instances that are about to be replaced (nested encrypt stores have their
+		// own) belong to the process that "dies" here: let them finish first, a real restart has none of them
+		if !waitNoMetaRollup() {
+			res.inconcl = "a meta roll-up goroutine of encrypt is still alive after 60s (before the recovery)"
+			return
+		}
 		b.Close()
 		env.NewKV(root.KVName("encmeta")).WipeRaw()
 		if cd.FaultyRestart {
@@ -567,6 +573,10 @@ func run(cd *caseDef, faults []fault, recoverAfter bool) (res result) {
 				if !doOp(2900, op{Kind: "battery"}, true) {
 					return
 				}
+			}
+			if !waitNoMetaRollup() {
+				res.inconcl = "a meta roll-up goroutine of encrypt is still alive after 60s (after the first start-up)"
+				return
 			}
 			b.Close()
 			env.NewKV(root.KVName("encmeta")).WipeRaw()
